@@ -50,8 +50,8 @@ VCS_SUBCOMMANDS_BY_NAME = {
     'git': {
         'is_usable'     : "git rev-parse --git-dir",
         'fetch'         : "git fetch",
-        'ls_tags'       : "git tag --list",
-        'ls_tags_branch': "git tag --list --merged",
+        'ls_tags'       : "git tag --list --no-column",
+        'ls_tags_branch': "git tag --list --no-column --merged",
         'status'        : "git status --porcelain",
         'add_path'      : "git add --update -- '{path}'",
         'commit'        : "git commit --message '{message}'",
